@@ -117,6 +117,11 @@ func TestC25(t *testing.T) {
 			g.S.Apply(o)
 			ops = append(ops, o)
 		}
+		if i%2 == 0 {
+			o := sh.Op{Kind: "AddWorkload", W: wl("w1", "a1_e1_s", "n0")}
+			g.S.Apply(o)
+			ops = append(ops, o)
+		}
 		k := 8 + r.Rng.Intn(18)
 		for j := 0; j < k; j++ {
 			o, _ := g.Next()
